@@ -548,7 +548,11 @@ func genObject(rng *hx.Rng, name string, pool *structPool, marker string, o genO
 		// MetaMethod.Parameters (the descriptions of the parameters) is independent of the parameter
 		// tuple: absent (nil), empty, shorter than the tuple, complete, or longer than it
 		nd := len(ps)
-		switch rng.Intn(9) {
+		k := rng.Intn(9)
+		if o.usedAct == nil && k >= 2 { // a family built for one defect switch: no description or a complete one
+			k = 8
+		}
+		switch k {
 		case 0, 1:
 			nd = -1
 		case 2:
@@ -732,6 +736,15 @@ func rtFail(objs []oObject, o parseObs) string {
 	return fail
 }
 
+// c18Pending: a failure of the round-trip oracle, reported after sorting: prio 0 = the detail is a
+// self-contained failing input (a package that fails alone, or a sequence run in a fresh process),
+// prio 1 = a package that fails only after the history of the harness process, prio 2 = a package
+// built to hit a recorded weakness (classified under its switch)
+type c18Pending struct {
+	kind, det, known string
+	prio, idx        int
+}
+
 type rtCase struct {
 	pkg   string
 	objs  []oObject
@@ -756,13 +769,28 @@ func runC18(res *hx.Result, rng *hx.Rng, tier string, outdir string) {
 		"(a package with a struct name clash, another recorded weak input or an invalid signature first, then ordinary packages made of the same signature strings; the same package " +
 		"repeated; packages sharing structs; objects over a struct pool and over its twin with the same names) where every ordinary step must round-trip; non-trivial = a struct is used by >= 2 actions or nested in a container, or the text is a mutation; " +
 		"distinct by sha256 of the canonical case"
-	nRT, nText := 260, 900
+	nRT, nText := 260, 750
 	if tier == "thorough" {
 		nRT, nText = 9000, 45000
 	}
 	cf := hx.NewCases(outdir, "C18", "From QV Require Import Sig SigParse Idl C18Run.", "mismatches cfg gcases pcases", res,
 		"gcases", "gcase", "pcases", "pcase")
 	cf.Extra = append(cf.Extra, "Open Scope string_scope.")
+	// the case files have a budget: a case above 40 kB, and everything after 4 MB (quick tier), is
+	// left to the oracles alone (never reached on the pinned code; a change that makes the texts
+	// grow with the history of the process would otherwise write gigabytes)
+	caseBytes, caseBudget, casesSkipped := 0, 4<<20, 0
+	if tier == "thorough" {
+		caseBudget = 200 << 20
+	}
+	addCase := func(list, term, desc string) {
+		if len(term) > 40000 || caseBytes+len(term) > caseBudget {
+			casesSkipped++
+			return
+		}
+		caseBytes += len(term)
+		cf.Add(list, term, desc)
+	}
 	// defect probe first (the case files need its verdict): the witness of
 	// C18_refuted_self_referential_struct_crash either ends the child process or is refused
 	selfRefWitness := "struct A\n a: A\nend\ninterface I\n fn f(x: A)\nend"
@@ -932,7 +960,7 @@ func runC18(res *hx.Result, rng *hx.Rng, tier string, outdir string) {
 			res.Fail("generate-error", fmt.Sprintf("GenerateIDL fails on a meta-object with valid signatures: %s", objsTerm(c.objs)))
 		}
 		texts = append(texts, text)
-		cf.Add("gcases", fmt.Sprintf("G %s %s %s %s", idlStr(c.pkg), objsTerm(ordered), hx.Bool(ok), idlStr(text)), "generate "+c.desc)
+		addCase("gcases", fmt.Sprintf("G %s %s %s %s", idlStr(c.pkg), objsTerm(ordered), hx.Bool(ok), idlStr(text)), "generate "+c.desc)
 	}
 
 	// ---- parser texts ----
@@ -1064,8 +1092,7 @@ func runC18(res *hx.Result, rng *hx.Rng, tier string, outdir string) {
 	sw := map[string]bool{}
 	detail := map[string]string{}
 	// ---- round-trip oracle ----
-	type pending struct{ kind, det string }
-	var failing []pending // reported smallest first: the first failing input is the one to read
+	var failing []c18Pending // reported self-contained and smallest first: the first failing input is the one to read
 	for i, c := range cases {
 		o := obs[i]
 		if !outs[i].ok {
@@ -1083,7 +1110,7 @@ func runC18(res *hx.Result, rng *hx.Rng, tier string, outdir string) {
 		}
 		det := fmt.Sprintf("meta-objects %s; generated IDL %q; %s", canon, outs[i].text, fail)
 		if c.again && c.known == "" && rtFail(cases[c.first].objs, obs[c.first]) == "" {
-			failing = append(failing, pending{"roundtrip-depends-on-history", fmt.Sprintf("%s. The same package round-tripped when this process generated it first (generated IDL %q); "+
+			failing = append(failing, c18Pending{kind: "roundtrip-depends-on-history", prio: 1, det: fmt.Sprintf("%s. The same package round-tripped when this process generated it first (generated IDL %q); "+
 				"this is its second GenerateIDL, after %d other packages went through GenerateIDL in the process", det, outs[c.first].text, i-c.first-1)})
 			continue
 		}
@@ -1092,14 +1119,47 @@ func runC18(res *hx.Result, rng *hx.Rng, tier string, outdir string) {
 				sw[c.known] = true
 				detail[c.known] = det
 			}
-			res.FailKnown("roundtrip", det, c.known)
+			failing = append(failing, c18Pending{kind: "roundtrip", det: det, prio: 2, known: c.known})
 		} else {
-			failing = append(failing, pending{"roundtrip", det})
+			failing = append(failing, c18Pending{kind: "roundtrip", det: det, idx: i})
 		}
 	}
+	// the smallest failing packages of this process once more, each alone in a fresh process: a package
+	// that round-trips there fails here because of what this process generated before it
 	sort.SliceStable(failing, func(i, j int) bool { return len(failing[i].det) < len(failing[j].det) })
+	var alone [][]c18StepIn
+	var aloneOf []int
+	for j, f := range failing {
+		if f.kind == "roundtrip" && len(alone) < 16 {
+			alone = append(alone, []c18StepIn{{cases[f.idx].pkg, cases[f.idx].objs}})
+			aloneOf = append(aloneOf, j)
+		}
+	}
+	if len(alone) > 0 {
+		aouts, aerrs := runSeqs(outdir, "c18_alone.json", alone)
+		for k, j := range aloneOf {
+			f := &failing[j]
+			if aerrs[k] == "" && aouts[k][0].Ok && rtFail(cases[f.idx].objs, aouts[k][0].Parse) == "" {
+				f.kind, f.prio = "roundtrip-depends-on-history", 1
+				f.det += fmt.Sprintf(". The same package alone in a fresh process round-trips (generated IDL %q): the result depends on the %d packages this process generated before it",
+					aouts[k][0].Text, f.idx)
+			}
+		}
+	}
+	// ---- sequences of conversions, each in one fresh process ----
+	failing = append(failing, c18Sequences(res, rng, tier, outdir, addCase, cases[:nRT])...)
+	sort.SliceStable(failing, func(i, j int) bool {
+		if failing[i].prio != failing[j].prio {
+			return failing[i].prio < failing[j].prio
+		}
+		return len(failing[i].det) < len(failing[j].det)
+	})
 	for _, f := range failing {
-		res.Fail(f.kind, f.det)
+		if f.known != "" {
+			res.FailKnown(f.kind, f.det, f.known)
+		} else {
+			res.Fail(f.kind, f.det)
+		}
 	}
 	for _, k := range []string{"keyword_prefix_struct_name", "basic_type_struct_name", "container_prefix_struct_name", "colliding_struct_names", "non_tuple_signal_property",
 		"uid_zero", "empty_tuple_or_void_in_container"} {
@@ -1137,13 +1197,14 @@ func runC18(res *hx.Result, rng *hx.Rng, tier string, outdir string) {
 		if r > 2 {
 			continue
 		}
-		cf.Add("pcases", fmt.Sprintf("P %s %d%%N %s", idlStr(p.text), r, objsTerm(o.Objs)), "parse "+p.desc)
+		addCase("pcases", fmt.Sprintf("P %s %d%%N %s", idlStr(p.text), r, objsTerm(o.Objs)), "parse "+p.desc)
 	}
 	if !crashSeen {
 		res.Switch("self_referential_struct_crash", probe.Res == 2, fmt.Sprintf("ParseIDL on %q ends the process: %s", selfRefWitness, probe.Error))
 	}
-	// ---- sequences of conversions, each in one fresh process ----
-	c18Sequences(res, rng, tier, outdir, cf, cases[:nRT])
+	if casesSkipped > 0 {
+		res.Notes = append(res.Notes, fmt.Sprintf("%d cases were not written to the case files (a case above 40 kB or the budget of %d bytes used up): oracles only", casesSkipped, caseBudget))
+	}
 	cf.Flush()
 }
 
